@@ -17,7 +17,11 @@ open Glom
     part of the corpus.) -/
 def userClassRows : ClassTable :=
   ["Obj", "Rec", "Tagged", "K0", "K1", "K2", "K3"].map (fun c => (c, [c, "object", "Hashable"])) ++
-  [("Color", ["Color", "Enum", "object", "Hashable"])]
+  [("Color", ["Color", "Enum", "object", "Hashable"])] ++
+  -- user subclasses of the builtin containers and of str (they override nothing): the row of the
+  -- builtin class — real MRO and virtual ABC bases — below the subclass itself
+  [("MyDict", "dict"), ("MyList", "list"), ("MyTuple", "tuple"), ("MySet", "set"), ("MyFset", "frozenset"),
+   ("MyStr", "str")].map (fun p => (p.1, p.1 :: ClassTable.mro Generated.abcClassTable p.2))
 
 def genEnv : Env :=
   { exc := Generated.excTable
